@@ -98,8 +98,20 @@ type c15State struct {
 
 func (s *c15State) MemberIndex() group.MemberIndex { return 1 }
 
+// snapshot reads the history of every message type through the real
+// BaseAsyncState. Callers take it BEFORE touching any harness lock, so that the
+// harness adds no happens-before edge between a state's Receive (history
+// write) and this read - the race detector then judges the real locking.
+func (sc *c15Sc) snapshot() [][]net.Message {
+	out := make([][]net.Message, sc.n)
+	for k := 0; k < sc.n; k++ {
+		out[k] = sc.base.GetAllReceivedMessages(c15Type(k))
+	}
+	return out
+}
+
 // checkVisible: every message admitted so far is in the history offered to state k.
-func (sc *c15Sc) checkVisible(k int, where string) {
+func (sc *c15Sc) checkVisible(k int, where string, snap [][]net.Message) {
 	sc.mu.Lock()
 	adm := append([]c15Adm(nil), sc.admitted...)
 	sc.mu.Unlock()
@@ -114,9 +126,11 @@ func (sc *c15Sc) checkVisible(k int, where string) {
 	}
 	for _, key := range keys {
 		got := 0
-		for _, m := range sc.base.GetAllReceivedMessages(c15Type(int(key[0]))) {
-			if p, ok := m.Payload().(*c15Msg); ok && p.ID == key[1] {
-				got++
+		if int(key[0]) < len(snap) {
+			for _, m := range snap[key[0]] {
+				if p, ok := m.Payload().(*c15Msg); ok && p.ID == key[1] {
+					got++
+				}
 			}
 		}
 		if got < want[key] {
@@ -128,6 +142,7 @@ func (sc *c15Sc) checkVisible(k int, where string) {
 
 func (s *c15State) Initiate(ctx context.Context) error {
 	sc := s.sc
+	snap := sc.snapshot()
 	sc.mu.Lock()
 	if sc.initStart[s.k] != 0 {
 		sc.r.Failf("C15:initiate-twice", "Initiate of state %d called twice", s.k)
@@ -139,7 +154,7 @@ func (s *c15State) Initiate(ctx context.Context) error {
 	slow := sc.slow[s.k]
 	sc.mu.Unlock()
 	sc.r.Logf("initiate state %d", s.k)
-	sc.checkVisible(s.k, "Initiate")
+	sc.checkVisible(s.k, "Initiate", snap)
 	if err := sc.ch.Send(ctx, &c15Msg{State: uint8(s.k), Valid: true, ID: uint64(100 + s.k)}); err != nil {
 		return err
 	}
@@ -173,17 +188,17 @@ func (s *c15State) Receive(m net.Message) error {
 		return nil
 	}
 	sc := s.sc
+	// all bookkeeping happens BEFORE the history write (see snapshot)
 	sc.mu.Lock()
 	sc.received[p.ID]++
+	if p.Valid && int(p.State) < sc.n {
+		sc.admitted = append(sc.admitted, c15Adm{s.k, int(p.State), p.ID})
+	}
 	sc.mu.Unlock()
 	if !p.Valid {
 		sc.r.Logf("state %d rejects message id=%d", s.k, p.ID)
 		return fmt.Errorf("c15: message rejected by validation")
 	}
-	sc.base.ReceiveToHistory(m)
-	sc.mu.Lock()
-	sc.admitted = append(sc.admitted, c15Adm{s.k, int(p.State), p.ID})
-	sc.mu.Unlock()
 	sc.r.Logf("state %d admits message id=%d of state %d", s.k, p.ID, p.State)
 	if int(p.State) > s.k {
 		sc.r.Probe("message-for-later-state-admitted")
@@ -191,20 +206,22 @@ func (s *c15State) Receive(m net.Message) error {
 			sc.r.Probe("message-two-or-more-states-ahead-admitted")
 		}
 	}
+	sc.base.ReceiveToHistory(m)
 	return nil
 }
 
 func (s *c15State) CanTransition() bool {
 	sc := s.sc
+	snap := sc.snapshot()
 	sc.mu.Lock()
 	sc.ctCalls[s.k]++
 	if sc.initEnd[s.k] == 0 {
 		sc.r.Failf("C15:cantransition-before-initiate-returned", "CanTransition of state %d called before its Initiate returned", s.k)
 	}
 	sc.mu.Unlock()
-	sc.checkVisible(s.k, "CanTransition")
+	sc.checkVisible(s.k, "CanTransition", snap)
 	senders := map[string]bool{}
-	for _, m := range sc.base.GetAllReceivedMessages(c15Type(s.k)) {
+	for _, m := range snap[s.k] {
 		if p, ok := m.Payload().(*c15Msg); ok && p.ID >= 1000 {
 			senders[m.TransportSenderID().String()] = true
 		}
@@ -224,6 +241,7 @@ func (s *c15State) CanTransition() bool {
 
 func (s *c15State) Next() (AsyncState, error) {
 	sc := s.sc
+	snap := sc.snapshot()
 	sc.mu.Lock()
 	if sc.initEnd[s.k] == 0 {
 		sc.r.Failf("C15:next-before-initiate-returned", "Next of state %d called although its Initiate has not returned (started: %v)", s.k, sc.initStart[s.k] != 0)
@@ -239,7 +257,7 @@ func (s *c15State) Next() (AsyncState, error) {
 		sc.nextFailed = true
 	}
 	sc.mu.Unlock()
-	sc.checkVisible(s.k, "Next")
+	sc.checkVisible(s.k, "Next", snap)
 	sc.r.Logf("next of state %d", s.k)
 	if fail {
 		return nil, c15ErrNext
